@@ -8,6 +8,8 @@ import (
 	"bytes"
 	"encoding/hex"
 	"fmt"
+	"os"
+	"path/filepath"
 	"reflect"
 	"strings"
 
@@ -18,10 +20,92 @@ import (
 	common2 "github.com/elastos/Elastos.ELA/core/types/common"
 	"github.com/elastos/Elastos.ELA/core/types/interfaces"
 
+	"github.com/elastos/Elastos.ELA/core/types/payload"
+
 	"verifharness/codecgen"
 	"verifharness/elaenv"
 	"verifharness/lib"
 )
+
+// recording reader: offsets and sizes of all reads (to find flag/enum/prefix bytes)
+type recReader struct {
+	r     *bytes.Reader
+	total int
+	reads [][2]int
+}
+
+func (m *recReader) Read(p []byte) (int, error) {
+	off := m.total - m.r.Len()
+	n, err := m.r.Read(p)
+	m.reads = append(m.reads, [2]int{off, len(p)})
+	return n, err
+}
+
+// hashOfValue checks, for a transaction x obtained by decoding some accepted
+// byte string, that its hash is a function of its value: equal to the double
+// hash of its own unsigned serialization, to the hash after one
+// re-encode/decode cycle, and to the hash of an equal transaction built in memory.
+func hashOfValue(x interfaces.Transaction) string {
+	h := x.Hash()
+	unsigned, err := ser(func(w *bytes.Buffer) error { return x.SerializeUnsigned(w) })
+	if err != nil {
+		return ""
+	}
+	if h != elacommon.Sha256D(unsigned) {
+		return "Hash() != Sha256D(SerializeUnsigned()) of the decoded value"
+	}
+	full, err := ser(func(w *bytes.Buffer) error { return x.Serialize(w) })
+	if err != nil {
+		return ""
+	}
+	y, rem, err := decodeTx(full)
+	if err != nil || rem != 0 {
+		return "the re-encoding of a decoded transaction does not decode"
+	}
+	if y.Hash() != h {
+		return "hash changes after one re-encode/decode cycle"
+	}
+	z := transaction.CreateTransaction(x.Version(), x.TxType(), x.PayloadVersion(), x.Payload(), x.Attributes(), x.Inputs(), x.Outputs(), x.LockTime(), x.Programs())
+	if z.Hash() != h {
+		return "hash differs from the hash of an equal transaction built in memory"
+	}
+	return ""
+}
+
+func genData(n int) []byte {
+	b := make([]byte, n)
+	for i := range b {
+		b[i] = byte((i*7 + 3) % 251)
+	}
+	return b
+}
+
+func bsum(bs []byte) uint64 {
+	var a uint64
+	for _, b := range bs {
+		a = (a*31 + uint64(b) + 1) % 4294967291
+	}
+	return a
+}
+
+// genTx mirrors corr/C04_corr.v [gen_tx].
+func genTx(kind, n int) interfaces.Transaction {
+	d := genData(n)
+	switch kind {
+	case 0:
+		return transaction.CreateTransaction(9, common2.TransferAsset, 0, &payload.TransferAsset{},
+			[]*common2.Attribute{{Usage: common2.Memo, Data: d}}, nil, nil, 0, nil)
+	case 1:
+		return transaction.CreateTransaction(9, common2.WithdrawFromSideChain, 2, &payload.WithdrawFromSideChain{Signers: d}, nil, nil, nil, 0, nil)
+	case 2:
+		progs := make([]*pg.Program, n)
+		for i := range progs {
+			progs[i] = &pg.Program{}
+		}
+		return transaction.CreateTransaction(9, common2.TransferAsset, 0, &payload.TransferAsset{}, nil, nil, nil, 0, progs)
+	}
+	return transaction.CreateTransaction(9, common2.Record, 0, &payload.Record{Type: "a", Content: d}, nil, nil, nil, 0, nil)
+}
 
 func decodeTx(b []byte) (interfaces.Transaction, int, error) {
 	r := bytes.NewReader(b)
@@ -171,6 +255,7 @@ func main() {
 		Mismatch: "C04_corr.mismatches", Scope: "N", PerShard: 60}
 	id := 0
 	skipped := 0
+	noncanon := 0
 	typesSeen := map[string]bool{}
 	reps := run.N(1, 12)
 	for ti, t := range codecgen.TxTypes {
@@ -189,12 +274,23 @@ func main() {
 					vers = append(vers, common2.TransactionVersion(10+rng.Intn(246)))
 				}
 				for _, ver := range vers {
-					x0 := codecgen.RandomTx(rng, ty, pv, ver)
+					var x0 interfaces.Transaction
+					var full []byte
+					var err error
+					for try := 0; try < 5; try++ { // retry until it serializes within the size budget
+						x0 = codecgen.RandomTx(rng, ty, pv, ver)
+						if x0 == nil {
+							break
+						}
+						full, err = ser(func(w *bytes.Buffer) error { return x0.Serialize(w) })
+						if err == nil && len(full) <= run.N(700, 4000) {
+							break
+						}
+					}
 					if x0 == nil {
 						continue
 					}
-					full, err := ser(func(w *bytes.Buffer) error { return x0.Serialize(w) })
-					if err != nil || len(full) > run.N(600, 4000) {
+					if err != nil || len(full) > run.N(700, 4000) {
 						skipped++
 						continue
 					}
@@ -244,6 +340,34 @@ func main() {
 						in["programs_replaced"] = hx(full3)
 						st.Fail(site+":programs", "the hash changes when the programs are replaced", in)
 					}
+					// (vii) values decoded from accepted but non-canonical bytes: every one-byte
+					// read (flag / enum / bool / prefix) replaced by other values
+					{
+						rr := &recReader{r: bytes.NewReader(full), total: len(full)}
+						if tx, err := transaction.GetTransactionByBytes(rr); err == nil {
+							tx.Deserialize(rr)
+						}
+						for _, rd := range rr.reads {
+							if rd[1] != 1 || rd[0] >= len(full) {
+								continue
+							}
+							for _, nb := range []byte{2, full[rd[0]] ^ 1, 0xff} {
+								if nb == full[rd[0]] {
+									continue
+								}
+								mb := append([]byte(nil), full...)
+								mb[rd[0]] = nb
+								xm, rem, err := decodeTx(mb)
+								if err != nil || rem != 0 {
+									continue
+								}
+								noncanon++
+								if d := hashOfValue(xm); d != "" {
+									st.Fail(site+":decoded-hash", d, map[string]interface{}{"type": ty.Name(), "payload_version": pv, "bytes": hx(mb), "mutated_offset": rd[0], "canonical": hx(full)})
+								}
+							}
+						}
+					}
 					term, ok := coqTx(id, x1, len(unsigned), full)
 					if !ok {
 						skipped++
@@ -258,6 +382,56 @@ func main() {
 					}
 				}
 			}
+		}
+	}
+	// varint width boundaries through WriteVarUint / ReadVarUint
+	vals := append([]uint64(nil), codecgen.VarintBoundaries...)
+	for i := 0; i < run.N(12, 200); i++ {
+		vals = append(vals, rng.U64()>>uint(rng.Intn(64)))
+	}
+	for _, v := range vals {
+		id++
+		enc, _ := ser(func(w *bytes.Buffer) error { return elacommon.WriteVarUint(w, v) })
+		dv, err := elacommon.ReadVarUint(bytes.NewReader(enc), 0)
+		in := map[string]interface{}{"value": v, "encoded": hx(enc)}
+		if err != nil || dv != v || elacommon.VarUintSerializeSize(v) != len(enc) {
+			in["err"] = fmt.Sprint(err)
+			st.Fail("varint:roundtrip", "ReadVarUint(WriteVarUint(v)) != v", in)
+		}
+		sh.Add(fmt.Sprintf("CVarint %d %d %s %s %d", id, v, lib.CoqBytes(enc), lib.CoqBool(err == nil), dv))
+		st.LogCase(run.Out, id, in)
+		st.Count("varint:"+hx(enc), true, "varint")
+	}
+	// one byte field and one list per varint width class inside a transaction
+	sizes := []int{0xfc, 0xfd, 0xfe, 0xffff, 0x10000, 0x10001}
+	var gens []string
+	for kind := 0; kind < 4; kind++ {
+		for _, n := range sizes {
+			if kind >= 2 && !run.Thorough() && n != 0xfd && n != 0x10000 {
+				continue
+			}
+			id++
+			x := genTx(kind, n)
+			full, err := ser(func(w *bytes.Buffer) error { return x.Serialize(w) })
+			in := map[string]interface{}{"generated_tx_kind": []string{"TransferAsset with a Memo attribute of n bytes", "WithdrawFromSideChain v2 with n signers", "TransferAsset with n empty programs", "Record with n bytes of content"}[kind], "n": n, "length": len(full), "bytes_prefix": hx(full[:40])}
+			gok := err == nil
+			if gok {
+				x1, rem, derr := decodeTx(full)
+				if derr != nil || rem != 0 {
+					gok = false
+					in["err"] = fmt.Sprint(derr)
+					st.Fail(fmt.Sprintf("gen[%d]:decode", kind), "a serialized transaction with a field/list of n elements does not decode", in)
+				} else {
+					full1, _ := ser(func(w *bytes.Buffer) error { return x1.Serialize(w) })
+					if !bytes.Equal(full1, full) || envelopeEq(x, x1, true, false) != "" || !semEq(reflect.ValueOf(x.Payload()), reflect.ValueOf(x1.Payload())) || x1.Hash() != x.Hash() {
+						gok = false
+						st.Fail(fmt.Sprintf("gen[%d]:fields", kind), "decode(encode t) differs from t", in)
+					}
+				}
+			}
+			gens = append(gens, fmt.Sprintf("CGen %d %d %d %d %d %s", id, kind, n, len(full), bsum(full), lib.CoqBool(gok)))
+			st.LogCase(run.Out, id, in)
+			st.Count(fmt.Sprintf("gen:%d:%d", kind, n), true, "sized-field")
 		}
 	}
 	// blocks
@@ -303,7 +477,22 @@ func main() {
 	st.Extra["skipped_unserializable_or_large"] = skipped
 	st.Extra["typed_lift"] = "transaction envelope, outputs, inputs, attributes, programs, header, block; payloads/output payloads/auxpow at descriptor level"
 	_ = strings.Join
+	st.Extra["noncanonical_accepted_decodes_checked"] = noncanon
 	st.Traces = st.Evals
-	sh.Flush()
+	nsh := sh.Flush()
+	// the sized-field cases are expensive to evaluate: two per shard
+	for i := 0; i < len(gens); i += 2 {
+		j := i + 2
+		if j > len(gens) {
+			j = len(gens)
+		}
+		body := "From Coq Require Import List ZArith NArith Bool String.\nImport ListNotations.\nFrom ELA Require Import corr.C04_corr.\nLocal Open Scope N_scope.\n" +
+			"Definition cases : list (C04_corr.case) := [\n  " + strings.Join(gens[i:j], ";\n  ") + "\n].\n" +
+			"Definition M := Eval vm_compute in (C04_corr.mismatches cases).\nPrint M.\n"
+		if err := os.WriteFile(filepath.Join(run.Out, fmt.Sprintf("cases_%03d.v", nsh)), []byte(body), 0o644); err != nil {
+			panic(err)
+		}
+		nsh++
+	}
 	st.Write(run.Out)
 }
